@@ -1,11 +1,6 @@
 """Contracts for src/dhkex/x25519.rs."""
-
-def from_bytes_clauses():
-    return '''
-        ensures
-            /*@C12 C13*/ encoded@.len() != 32 ==> r == Err::<Self, HpkeError>(HpkeError::IncorrectInputLength(32, encoded@.len() as usize)),
-            /*@C12 C13*/ encoded@.len() == 32 ==> r is Ok && r.unwrap().ser() == encoded@,
-'''
+from contracts.c_lib import from_bytes_clauses
+from contracts.c_dhkex import SK_TO_PK, DERIVE
 
 def apply(F):
     F.use()
@@ -19,7 +14,8 @@ def apply(F):
         F.wrap([], S[0])
     for t in ('PublicKey', 'PrivateKey'):
         D = [r'impl Deserializable for %s\b' % t]
-        F.contract(D, r'fn from_bytes\b', ret='r', clauses=from_bytes_clauses())
+        F.insert_in([], D[0], '    // ghost: every 32-byte string is accepted (RFC 9180 §7.1.1: no validation for X25519)\n    open spec fn de_valid(b: Bytes) -> bool { true }')
+        F.contract(D, r'fn from_bytes\b', ret='r', clauses=from_bytes_clauses('tnum::<Self::OutputSize>()') + ',\n')
         F.wrap([], D[0])
     F.wrap([], r'pub struct X25519\b')
     X = [r'impl DhKeyExchange for X25519\b']
@@ -36,8 +32,8 @@ def apply(F):
         (sk, x_base(sk))
     }
 ''')
-    F.contract(X, r'fn sk_to_pk\b', ret='r')
+    F.contract(X, r'fn sk_to_pk\b', ret='r', clauses=SK_TO_PK + ',\n')
     F.contract(X, r'fn dh\b', ret='r', attrs=['#[verifier::external_body]'], discharged_by='kani:x25519_dh_zero_check')
-    F.contract(X, r'fn derive_keypair<Kdf: KdfTrait>', ret='r')
+    F.contract(X, r'fn derive_keypair<Kdf: KdfTrait>', ret='r', clauses=DERIVE + ',\n')
     F.wrap([], X[0])
     F.append('verus!{ broadcast use {tnum_values, x_lens, x_ss_len, x_fn_lens, x_base_len, ga_len}; }')
